@@ -3,7 +3,8 @@ import RrModel.RedirectCache
 import RrModel.Spec.C18Cache
 import RrModel.Generated.Facts
 /- streams: sysrc, kf.C18-c, kf.C18-d — restart_on_redirect through cache-enabled rules, as
-   histories (cold, warm, ticks) on one cache (C18) -/
+   histories (cold, warm, ticks) on one cache (C18); kf.C18-c is the regression stream of the
+   repaired finding C18-c (a loop of stored hops: now ended by the hop counter with 508) -/
 open Go Model Proto Model.Redirect Model.RedirectCache Spec.C18 Spec.C18Cache
 
 namespace H.SysRC
@@ -116,6 +117,7 @@ def mkCfg (rules : List Rule) (nodes : List CNode) (known : List Bytes) : Redire
   origin := originOf nodes known
   isRedirect := fun s => Facts.redirectStatuses.contains s
   hasStorage := hasStorage
+  maxRedirects := Facts.maxRedirects
 
 def hSysRC : Handler := fun impl => do
   let rcs ← pList pRuleC
@@ -130,16 +132,12 @@ def hSysRC : Handler := fun impl => do
   let mops : List Op := ops.map fun o => match o with | .request t _ => .request t | .tick dt => .tick dt
   let outs := history cfg edge limit 1700000000 [] mops
   let model := " ".intercalate (outs.map outcomeTok)
-  -- classes: per request of the history, on the input (the model's divergence for the two loop findings)
+  -- classes: per request of the history, on the input (the loop findings C18-a / C18-c are
+  -- repaired: a loop is ended by the hop counter, no class stands for it any more)
   let reqs : List (Bytes × Nat) := ops.filterMap fun o => match o with | .request t s => some (t, s) | _ => none
-  let perReq := reqs.zip (outs.map some ++ List.replicate reqs.length none)
-  let cls : List String := (perReq.flatMap fun ((t, s), out) =>
+  let cls : List String := (reqs.flatMap fun (t, s) =>
     let chain := chainOf nodes rules edge t s
     if ¬ allRestart chain then [] else
-    let cyc := chainEndOf nodes s = .cycle
-    (match out with
-     | some (.runaway cs) => if cyc then (if cs.isEmpty then ["C18-c"] else ["C18-a"]) else []
-     | _ => []) ++
     (if inClass_C18_d nodes chain then ["C18-d"] else [])).eraseDups
   let (oracle, skips) : String × List String :=
     match run (pAll pRObs) impl with
